@@ -25,6 +25,7 @@ def run(rep, facts):
     rep.rule("R14.1", "the value shared by task tokens (the pointee of the shutdown future's Weak) has a Drop impl that calls AtomicWaker::wake on its waker field on every path, unconditionally")
     rep.rule("R14.2", "the shutdown future's poll: upgrade()==None => Ready; on Some: AtomicWaker::register(cx.waker()) happens before the upgraded Arc can be dropped, on every path, and the result is Pending")
     rep.rule("R14.3", "shutdown(self): notify(usize::MAX) on the stop event happens on every path before the wait future is returned; that conversion only downgrades (the runner's own strong reference is released)")
+    rep.rule("R14.5", "in run(): every path from a suspension of the connection task (or its start) to a handler invocation polls the stop listener first (select(stop, ..) with the listener as first component), so no handler begins in a scheduling step that started after shutdown() was called")
     rep.rule("R14.4", "in run(): the only cancellable region is select(stop listener, preamble coroutine) with the stop listener first; the handler and every event of close() lie outside it; the stop arm returns with no further I/O event")
 
     # ---- R14.2 (and discovery of the shared type) --------------------------------------------------------
@@ -178,8 +179,60 @@ def run(rep, facts):
     # ---- R14.4 -------------------------------------------------------------------------------------------
     gr, evr = common.build(facts, RUN)
     sel_frames = [f for f in gr.frames if f.kind == 'select']
-    if len(sel_frames) != 1:
-        rep.violation("R14.4", "run/select-count", "run has %d select regions, expected 1" % len(sel_frames))
+
+    def stop_first(fe):
+        """Is the awaited future select(<the token's stop listener>, ..)?"""
+        sel = [x for x in ir.walk(fe) if x[0] == 'call' and x[1] == "futures_util::future::select"]
+        if not sel:
+            return False
+        a0 = ir.peel(sel[0][2][0])
+        return a0[0] == 'field' and a0[2] == 'stop_fut'
+    # selects over an external future (e.g. select(stop, transport.read(..))): no component to inline
+    ext_sel = []
+    for n in gr.all_nodes():
+        if ieg.is_await_poll(n.term) and not n.noise():
+            aw = gr.awaited(n) or {}
+            if aw.get("s", "").startswith("futures_util::future::Select<") and not gr.coroutine_of(aw):
+                ext_sel.append(n)
+    stop_frames = {f.id for f in sel_frames if stop_first(f.future_expr)}
+    stop_awaits = set()
+    for f in sel_frames:
+        if f.id in stop_frames:
+            stop_awaits.add((f.parent.id, f.site))
+    for n in ext_sel:
+        if stop_first(gr.resolve(n.frame, n.term["args"][0], (n.bb, -1))):
+            stop_awaits.add((n.frame.id, n.bb))
+
+    # ---- R14.5: a handler invocation never begins in a scheduling step that did not poll the stop listener first ----
+    def eff5(n, m, lab):
+        gens, kills = set(), set()
+        if n.term["k"] == "yield":
+            fs = n.frame.in_select()
+            if fs is not None and fs.id in stop_frames:
+                gens.add("STOP_POLLED")     # the select polls the stop listener before resuming its component
+            else:
+                kills.add("STOP_POLLED")
+        elif (n.frame.id, n.bb) in stop_awaits and ieg.is_await_poll(n.term):
+            gens.add("STOP_POLLED")
+        return gens, kills
+    m5 = common.must_dataflow(gr, frozenset(), eff5)
+    nh = 0
+    for n in gr.all_nodes():
+        e = evr.at(n)
+        if e is None or e[0] != 'HANDLER' or e[1] != 'call' or n.key not in m5:
+            continue
+        nh += 1
+        key = "run/%s/stop-polled-before-handler" % common.fn_of(n)
+        if "STOP_POLLED" in m5[n.key]:
+            rep.ok("R14.5", key, "on every path the stop listener was polled (and had not fired) after the task's last suspension before the handler is invoked", n.loc())
+        else:
+            w = common.witness(gr, frozenset(), eff5, n, "STOP_POLLED")
+            rep.violation("R14.5", key, "a handler invocation is reachable in a scheduling step that never looked at the stop listener (e.g. a request already buffered when the previous one finished): a new request starts after shutdown() was called",
+                          n.loc(), path=[x.loc() for x in w][:12] if w else None)
+    rep.floor("R14.5", "handler invocation sites in run", nh, 1)
+
+    if len(sel_frames) + len(ext_sel) != 1:
+        rep.violation("R14.4", "run/select-count", "run has %d select regions, expected 1" % (len(sel_frames) + len(ext_sel)))
     for f in sel_frames:
         sn = gr.nodes[next(k for k in gr.succ if k[0] == f.parent.id and k[1] == f.site)]
         fe = f.future_expr
@@ -217,6 +270,23 @@ def run(rep, facts):
                 events, rets = common.frame_paths_to_return(gr, evr, m, lambda x: (evr.at(x) or ('',))[0] in ('READ', 'WRITE', 'PARSE', 'HANDLER', 'HANDOFF'))
                 if events or not rets:
                     rep.violation("R14.4", "run/stop-arm-returns", "after the stop listener fired, an %s event is reachable before run returns" % (evr.at(events[0])[0] if events else "no-return"), m.loc())
+    # select over an external future: the stop arm is the Either::Left edge of the match on its result
+    for sn_ in ext_sel:
+        for n in gr.all_nodes():
+            if n.term["k"] != "switch" or n.noise():
+                continue
+            de = evr.switch_expr(n)
+            if de is None or de[0] != 'discr' or not str(de[2] if len(de) > 2 else "").endswith("Either"):
+                continue
+            if not common.derives_from_site(de[1], sn_.frame.id, sn_.bb):
+                continue
+            for (m, lab) in gr.succ[n.key]:
+                if lab == ('case', 0):
+                    ncancel += 2    # counts like the two cancellation edges (initial poll, resumed poll) of an inlined component
+                    events, rets = common.frame_paths_to_return(gr, evr, m, lambda x: (evr.at(x) or ('',))[0] in ('READ', 'WRITE', 'PARSE', 'HANDLER', 'HANDOFF'))
+                    # the arm returns from the helper; what the caller does with that result is covered by R14.5 and R12.3
+                    if events or not rets:
+                        rep.violation("R14.4", "run/stop-arm-returns", "after the stop listener fired, an %s event is reachable before the operation returns" % (evr.at(events[0])[0] if events else "no-return"), m.loc())
     if ncancel:
         rep.ok("R14.4", "run/stop-arm-returns", "%d cancellation edges all lead to return with no further I/O event" % ncancel)
     rep.floor("R14.4", "cancellation edges", ncancel, 2)
